@@ -1,0 +1,181 @@
+//! Schedule points for the external verification harness (feature `verif-hooks` only).
+//!
+//! A point reports one shared-state step of a scheduler role to an installed [`Controller`] and
+//! returns when the controller lets the calling thread continue. Without an installed controller,
+//! or on a thread that never enrolled, every function here is a no-op.
+
+use std::{
+    cell::Cell,
+    sync::{Arc, RwLock},
+};
+
+/// One reported step: a static site name plus up to four observed values.
+#[derive(Clone, Copy, Debug)]
+pub struct Event {
+    /// Site name, e.g. `"val_ts"`.
+    pub site: &'static str,
+    /// Observed values; meaning depends on the site.
+    pub args: [usize; 4],
+}
+
+/// Verdict of a thread that was granted a lock-acquisition point.
+#[derive(Clone, Copy, Debug, PartialEq, Eq)]
+pub enum LockProbe {
+    /// The lock was free; the thread proceeds to acquire it.
+    Free,
+    /// The lock is held by a paused thread; the thread asks to be rescheduled later.
+    Busy,
+}
+
+/// Decides when enrolled threads run.
+pub trait Controller: Send + Sync {
+    /// A thread enrolled with a role (0 = worker, 1 = finality, 2 = commit). Returns its id.
+    fn enroll(&self, role: usize) -> usize;
+    /// The enrolled thread `tid` is leaving (normally or by unwinding).
+    fn leave(&self, tid: usize, panicking: bool);
+    /// Block until thread `tid` may perform the step described by `event`.
+    fn point(&self, tid: usize, event: Event);
+    /// The thread was granted a lock point but found the lock busy.
+    fn lock_busy(&self, tid: usize, event: Event);
+    /// Emulated `park`: returns once a token is available for `tid`, consuming it.
+    fn park(&self, tid: usize, slot: usize);
+    /// Emulated `unpark` of the thread registered on `slot` (if any).
+    fn unpark(&self, tid: usize, slot: usize);
+    /// A waiter registered on `slot`.
+    fn register_waiter(&self, tid: usize, slot: usize);
+}
+
+static CONTROLLER: RwLock<Option<Arc<dyn Controller>>> = RwLock::new(None);
+
+thread_local! {
+    static TID: Cell<Option<usize>> = const { Cell::new(None) };
+}
+
+/// Install a controller for subsequently enrolled threads.
+pub fn install(controller: Arc<dyn Controller>) {
+    *CONTROLLER.write().unwrap() = Some(controller);
+}
+
+/// Remove the installed controller.
+pub fn uninstall() {
+    *CONTROLLER.write().unwrap() = None;
+}
+
+fn controller() -> Option<Arc<dyn Controller>> {
+    CONTROLLER.read().unwrap().clone()
+}
+
+fn current() -> Option<(Arc<dyn Controller>, usize)> {
+    let tid = TID.with(Cell::get)?;
+    controller().map(|c| (c, tid))
+}
+
+/// Leaves the controller when the enrolled role ends.
+#[derive(Debug)]
+pub struct Enrolled(Option<usize>);
+
+impl Drop for Enrolled {
+    fn drop(&mut self) {
+        if let Some(tid) = self.0.take() {
+            TID.with(|t| t.set(None));
+            if let Some(c) = controller() {
+                c.leave(tid, std::thread::panicking());
+            }
+        }
+    }
+}
+
+/// Enroll the current thread for the lifetime of the returned guard.
+pub fn enroll(role: usize) -> Enrolled {
+    match controller() {
+        Some(c) => {
+            let tid = c.enroll(role);
+            TID.with(|t| t.set(Some(tid)));
+            Enrolled(Some(tid))
+        }
+        None => Enrolled(None),
+    }
+}
+
+/// Report a step with no observed values.
+#[inline]
+pub fn pt(site: &'static str) {
+    pt4(site, 0, 0, 0, 0);
+}
+
+/// Report a step with one observed value.
+#[inline]
+pub fn pt1(site: &'static str, a: usize) {
+    pt4(site, a, 0, 0, 0);
+}
+
+/// Report a step with two observed values.
+#[inline]
+pub fn pt2(site: &'static str, a: usize, b: usize) {
+    pt4(site, a, b, 0, 0);
+}
+
+/// Report a step with four observed values.
+#[inline]
+pub fn pt4(site: &'static str, a: usize, b: usize, c: usize, d: usize) {
+    if let Some((ctrl, tid)) = current() {
+        ctrl.point(tid, Event { site, args: [a, b, c, d] });
+    }
+}
+
+/// Wait until the lock described by `is_locked` can be taken without blocking.
+///
+/// Under a serialising controller exactly one enrolled thread runs at a time, so the real `lock()`
+/// that follows cannot block once this returns.
+pub fn before_lock(site: &'static str, idx: usize, is_locked: impl Fn() -> bool) {
+    if let Some((ctrl, tid)) = current() {
+        let event = Event { site, args: [idx, 0, 0, 0] };
+        loop {
+            ctrl.point(tid, event);
+            if !is_locked() {
+                return;
+            }
+            ctrl.lock_busy(tid, event);
+        }
+    }
+}
+
+/// Emulated park. Returns `true` when a controller handled it (the real park must be skipped).
+pub fn park(slot: usize) -> bool {
+    match current() {
+        Some((ctrl, tid)) => {
+            ctrl.park(tid, slot);
+            true
+        }
+        None => false,
+    }
+}
+
+/// Emulated unpark of the waiter of `slot`.
+pub fn unpark(slot: usize) {
+    if let Some((ctrl, tid)) = current() {
+        ctrl.unpark(tid, slot);
+    }
+}
+
+/// The current thread registered as the waiter of `slot`.
+pub fn register_waiter(slot: usize) {
+    if let Some((ctrl, tid)) = current() {
+        ctrl.register_waiter(tid, slot);
+    }
+}
+
+/// Whether the current thread is enrolled with an installed controller.
+pub fn active() -> bool {
+    current().is_some()
+}
+
+/// Stable 64-bit FNV-1a hash used to report keys and values as integers.
+pub fn fnv(bytes: &[u8]) -> usize {
+    let mut h: u64 = 0xcbf2_9ce4_8422_2325;
+    for b in bytes {
+        h ^= u64::from(*b);
+        h = h.wrapping_mul(0x0000_0100_0000_01b3);
+    }
+    h as usize
+}
